@@ -33,6 +33,7 @@ type scriptedServer struct {
 	stopped     hx.Flag
 	sid         string
 	getStatus   int                  // status for GET on Streamable (0 = serve a stream)
+	deleteStatus int                 // status for DELETE on Streamable (0 = 200)
 	onStream    func(w scriptWriter) // called once the background stream is open
 	childExit   func()               // stdio: effect of the child process exiting
 	urlSuffix   string               // appended to the URL given to the client constructors (e.g. "?api_key=k")
@@ -191,6 +192,10 @@ func (s *scriptedServer) serveHTTP(w0 http.ResponseWriter, r *http.Request) {
 		s.waitClosed(r)
 		return
 	case http.MethodDelete:
+		if s.deleteStatus != 0 {
+			w.WriteHeader(s.deleteStatus)
+			return
+		}
 		w.WriteHeader(200)
 		return
 	}
